@@ -28,7 +28,7 @@ func init() {
 	addMutant(Mutant{Name: "c08-splitpath-escape", Property: "C08", File: "util/path.go",
 		Old: "case ch == '\\\\' && !inEscape && inKey:", New: "case ch == '\\\\' && !inEscape && inKey && false:", Expect: "escapable"})
 	addMutant(Mutant{Name: "c08-unsorted-keys", Property: "C08", File: "ygot/pathstrings.go",
-		Old: "\tsort.Strings(keys)\n\n\tfor _, k := range keys {", New: "\tfor _, k := range keys {", Expect: "collect-then-sort"})
+		Old: "\tsort.Strings(keys)\n\n\tfor _, k := range keys {", New: "\t_ = sort.Strings\n\n\tfor _, k := range keys {", Expect: "collect-then-sort"})
 	addMutant(Mutant{Name: "c08-unescaped-bracket", Property: "C08", File: "ygot/pathstrings.go",
 		Old: "\t\tv = strings.Replace(v, `]`, `\\]`, -1)\n", New: "", Expect: "extractKV:value:']'"})
 	addMutant(Mutant{Name: "c09-absorb", Property: "C09", File: "util/gnmi.go",
